@@ -514,6 +514,81 @@ def run(ctx):
             shutil.rmtree(d, ignore_errors=True)
     finally:
         shutil.rmtree(tmp, ignore_errors=True)
+    # a pipeline kept at a path that keeps a sub-result at another path. One keeper is stopped before each of its operations in turn
+    # (so: also in the middle of committing its paths, the top path linked and the sub-path not yet); a second process then keeps the
+    # same pipeline - at the top level, through dds.keep - to completion and loads both paths: it returns, and gets the values
+    # of the current code. On a cold store, and on a store that served another version of the same paths before.
+    tmp = tempfile.mkdtemp(prefix="ddsverif_c07n_")
+    try:
+        ws = os.path.join(tmp, "ws")
+        os.makedirs(ws)
+        nm = "c7n_%d" % os.getpid()
+        with open(os.path.join(ws, nm + ".py"), "w") as fh:
+            fh.write("import dds\nimport os\n\nV = os.environ.get('DDSVERIF_V', '1')\n\ndef prepare():\n    return 'prepared-' + V\n\n"
+                     "def report():\n    return 'report(' + dds.keep('/w/prepared', prepare) + ')'\n")
+
+        def nkeeper(d, version):
+            def fn():
+                import importlib
+                os.environ["DDSVERIF_V"] = version
+                sys.path.insert(0, ws)
+                sys.modules.pop(nm, None)
+                import dds
+                dds.accept_module(nm)
+                m = importlib.import_module(nm)
+                dds.set_store("local", internal_dir=d + "/internal", data_dir=d + "/data")
+                v = dds.keep("/w/report", m.report)
+                return (v, dds.load("/w/prepared"), dds.load("/w/report"))
+            return fn
+        want1 = ("report(prepared-1)", "prepared-1", "report(prepared-1)")
+        for variant in ("cold", "served_another_version_before"):
+            d0 = os.path.join(tmp, "d0_" + variant)
+            os.makedirs(d0)
+            if variant != "cold":
+                in_child(nkeeper(d0, "1"))
+                in_child(nkeeper(d0, "2"))
+            solo = Child(nkeeper(d0, "1"), d0)
+            while solo.grant():
+                pass
+            nops = solo.steps
+            shutil.rmtree(d0, ignore_errors=True)
+            stops = list(range(0, nops + 1))
+            if not thorough and len(stops) > 24:
+                # (quick: every operation of the second half - where the paths are committed - and every third one before)
+                stops = [k for k in stops if k >= nops // 2 or k % 3 == 0]
+            for k in stops:
+                d = os.path.join(tmp, "run_%s_%d" % (variant, k))
+                os.makedirs(d)
+                if variant != "cold":
+                    in_child(nkeeper(d, "1"))
+                    in_child(nkeeper(d, "2"))
+                first = Child(nkeeper(d, "1"), d)
+                for _ in range(k):
+                    if not first.grant():
+                        break
+                first.wait_request()
+                ob = in_child(nkeeper(d, "1"))
+                while first.grant():
+                    pass
+                after = in_child(nkeeper(d, "1"))
+                res.evaluations += 3
+                res.count("scenario_nested_keeps_second_keeper")
+                res.nontrivial("nested keeps %s stop %d" % (variant, k))
+                bad = None
+                if ob[0] != "ok" or tuple(ob[1]) != want1:
+                    bad = ("while a keeper of the same pipeline is stopped after %d of its %d operations (last: %s), a second process that keeps it and loads "
+                           "its paths gets %r, expected %r" % (k, nops, first.trace[k - 1] if 0 < k <= len(first.trace) else None, ob[1], want1))
+                elif first.result is None or first.result[0] != "ok" or tuple(first.result[1]) != want1:
+                    bad = "the keeper that was stopped after %d operations and resumed returned %r" % (k, first.result)
+                elif after[0] != "ok" or tuple(after[1]) != want1:
+                    bad = "once both keepers have finished a third process gets %r" % (after[1],)
+                shutil.rmtree(d, ignore_errors=True)
+                if bad:
+                    res.violations.append({"what": bad, "input": {"scenario": "nested keeps, second keeper while the first is stopped", "store": variant, "stop_after": k,
+                                                                    "first_keeper_operations": first.trace}, "kf": None})
+                    break
+    finally:
+        shutil.rmtree(tmp, ignore_errors=True)
     # long-lived processes taking turns on one store (no preemption needed): A keeps version 1, B keeps version 2 of the same
     # paths, A keeps version 1 again - every process (A, B, a fresh one) must then see version 1 everywhere, whatever A or B
     # remember privately about what they committed (both run with the object cache, as set_store(cache_objects=True) does)
